@@ -164,12 +164,43 @@ fn compare(ctx: &mut Ctx, family: &str, idx: u64, b: &[u8], env: &Env, obs: &Pkt
                                 format!("section {} record {}: RDLENGTH is {} but the value returned ({}) takes {} bytes: it was read from beyond the record", s, i, wr.rdlen, short_rd(&lr.rd), natural), case());
                             return;
                         }
+                        // ... nor present the record as opaque data that is not the RDLENGTH bytes of the entry
+                        if let Rd::Opaque(data) = &lr.rd {
+                            if data[..] != b[wr.rd_off..wr.end] {
+                                ctx.violation("rdata-from-rdlength", &format!("opaque-rdata-is-not-the-rdlength-bytes:{}", type_name(wr.rtype)),
+                                    format!("section {} record {}: the typed content does not fit RDLENGTH {}, the library returns the record as opaque data of {} bytes that differ from the {} RDATA bytes of the entry",
+                                        s, i, wr.rdlen, data.len(), wr.rdlen), case());
+                                return;
+                            }
+                            ctx.count("undecodable_rdata_kept_opaque_exact");
+                        }
                         ctx.count("rdata_not_exact_(latitude)")
                     }
                 }
             }
         }
     }
+}
+
+/// A response whose additional section has `n` records; those at the positions of `mask` are OPT pseudo-records.
+pub fn multi_opt_msg(ctx: &Ctx, idx: u64, n: usize, mask: u32, rep: u64) -> Vec<u8> {
+    let mut r = ctx.rng("opt-multi", idx);
+    let mut g = Gen::new(&mut r, Cfg { edns: 0, max_rest: 10, exotic: false, ..Default::default() });
+    let mut m = MsgM { id: idx as u16, flags: if rep % 2 == 0 { 0x8400 } else { 0x0100 }, ..Default::default() };
+    if rep % 3 == 1 {
+        m.secs[0].push(g.record().to_wire());
+    }
+    for k in 0..n {
+        if mask & (1 << k) != 0 {
+            let opts = if (rep + k as u64) % 3 == 0 { vec![] } else { vec![(10u16, vec![1, 2, 3, 4, 5, 6, 7, 8]), (3, vec![k as u8])] };
+            m.secs[2].push(RRM::new(vec![], 41, 512 + k as u16, (k as u32) << 24, Rd::Fields(vec![F::Pairs(opts)])));
+        } else {
+            let mut rr = g.record().to_wire();
+            rr.ttl = 1000 + k as u32;
+            m.secs[2].push(rr);
+        }
+    }
+    encode(&m, if rep % 4 < 2 { Plan::None } else { Plan::Canonical }).bytes
 }
 
 /// filler that looks like a complete A record with a root owner
@@ -276,6 +307,28 @@ pub fn run(ctx: &mut Ctx) {
                     let b = encode(&m, if rep % 4 < 2 { Plan::None } else { Plan::Canonical }).bytes;
                     ctx.add("opt_position_cases", 1);
                     check_bytes(ctx, "opt-position", idx, &b);
+                }
+            }
+        }
+    }
+    // several OPT records in one additional section (every subset of two or more positions among 2..6 records, the others
+    // distinguishable): whatever the library does with the OPT records, the others stay, in order
+    if ctx.family_active("opt-multi") {
+        let reps = if ctx.slow_tool { 1 } else { tier.pick(4u64, 100u64) };
+        let mut idx = 0u64;
+        for n in 2..=6usize {
+            for mask in 0u32..(1 << n) {
+                if mask.count_ones() < 2 {
+                    continue;
+                }
+                for rep in 0..reps {
+                    idx += 1;
+                    if !ctx.take("opt-multi", idx) {
+                        continue;
+                    }
+                    let b = multi_opt_msg(ctx, idx, n, mask, rep);
+                    ctx.add("opt_multi_cases", 1);
+                    check_bytes(ctx, "opt-multi", idx, &b);
                 }
             }
         }
